@@ -4,30 +4,21 @@
 //@include prelude_std.rs
 //@include prelude_types.rs
 //@include prelude_geo.rs
+//@include frag_partial_ord.rs
 verus! {
 
 // ------------------------------------------------------------------ comparison helpers
-pub open spec fn pc_le<T: PartialOrd>(a: T, b: T) -> bool {
-    a.partial_cmp_spec(&b) == Some(Ordering::Less) || a.partial_cmp_spec(&b) == Some(Ordering::Equal)
-}
-pub open spec fn pc_ge<T: PartialOrd>(a: T, b: T) -> bool {
-    a.partial_cmp_spec(&b) == Some(Ordering::Greater) || a.partial_cmp_spec(&b) == Some(Ordering::Equal)
-}
-pub open spec fn pc_lt<T: PartialOrd>(a: T, b: T) -> bool {
-    a.partial_cmp_spec(&b) == Some(Ordering::Less)
-}
-
 //@fn geo/src/algorithm/intersects/mod.rs | - | value_in_range | id=C02.V.value_in_range
 //@ret r
 //@spec
-    requires T::obeys_partial_cmp_spec(),
+    requires T::obeys_partial_cmp_spec(), po_dual::<T>(),
     ensures r == (pc_ge(value, min) && pc_le(value, max)),
 //@end
 
 //@fn geo/src/algorithm/intersects/mod.rs | - | value_in_between | id=C02.V.value_in_between
 //@ret r
 //@spec
-    requires T::obeys_partial_cmp_spec(),
+    requires T::obeys_partial_cmp_spec(), po_dual::<T>(),
     ensures r == (if pc_lt(bound_1, bound_2) { pc_ge(value, bound_1) && pc_le(value, bound_2) } else { pc_ge(value, bound_2) && pc_le(value, bound_1) }),
 //@end
 
@@ -35,12 +26,8 @@ pub open spec fn pc_lt<T: PartialOrd>(a: T, b: T) -> bool {
 //@ret r
 //@spec
     ensures r == (between(value.x.val(), bound_1.x.val(), bound_2.x.val()) && between(value.y.val(), bound_1.y.val(), bound_2.y.val())),
-//@before 1 `value_in_between(value.x`
-    proof {
-        T::ax_obeys();
-        T::ax_cmp(bound_1.x, bound_2.x); T::ax_cmp(bound_1.x, value.x); T::ax_cmp(value.x, bound_2.x); T::ax_cmp(bound_2.x, value.x); T::ax_cmp(value.x, bound_1.x);
-        T::ax_cmp(bound_1.y, bound_2.y); T::ax_cmp(bound_1.y, value.y); T::ax_cmp(value.y, bound_2.y); T::ax_cmp(bound_2.y, value.y); T::ax_cmp(value.y, bound_1.y);
-    }
+//@entry
+        proof { T::ax_obeys(); T::ax_order(); }
 //@end
 
 impl<T: CoordNum> LineString<T> {
@@ -48,11 +35,11 @@ impl<T: CoordNum> LineString<T> {
 //@ret r
 //@spec
     ensures r == closed(self.0@),
-//@before 1 `self.0.first()`
+//@entry
     proof {
         T::ax_obeys();
         if self.0@.len() > 0 {
-            T::ax_cmp(self.0@[0].x, self.0@.last().x);
+            T::ax_order(); T::ax_cmp(self.0@[0].x, self.0@.last().x);
             T::ax_cmp(self.0@[0].y, self.0@.last().y);
         }
     }
@@ -70,29 +57,28 @@ verus! {
         linestring.0@.len() < 0x7fff_ffff,   // the winding number is counted in an i32
     ensures
         r == ring_pos(pt(coord), linestring.0@),
-//@before 1 `debug_assert!(linestring.is_closed());`
-    proof { T::ax_obeys(); }
-//@before 1 `return if coord == linestring.0[0]`
-    proof { T::ax_cmp(coord.x, linestring.0@[0].x); T::ax_cmp(coord.y, linestring.0@[0].y); }
+//@entry
+    proof { T::ax_obeys(); T::ax_order(); lemma_po_dual::<T>(); }
 //@loop 1 it
         invariant
-            T::obeys_eq_spec(), T::obeys_partial_cmp_spec(),
+            T::obeys_eq_spec(), T::obeys_partial_cmp_spec(), po_dual::<T>(),
             linestring.0@.len() >= 2,
             linestring.0@.len() < 0x7fff_ffff,
             it.snapshot@.remaining() == line_seq(linestring.0@),
             0 <= it.index@ <= linestring.0@.len() - 1,
             winding_number as int == ring_wn(pt(coord), linestring.0@, it.index@),
             none_on_ring_except_seam(pt(coord), linestring.0@, it.index@),
-//@before 1 `if line.start.y <= coord.y {`
+//@loopentry 1
         proof {
+            T::ax_order();
             let k = it.index@;
             let a = linestring.0@[k];
             let b = linestring.0@[k + 1];
             assert(line == line_seq(linestring.0@)[k]);
             assert(line.start == a && line.end == b);
-            T::ax_cmp(a.y, coord.y); T::ax_cmp(b.y, coord.y);
-            T::ax_cmp(a.x, b.x); T::ax_cmp(coord.x, a.x); T::ax_cmp(coord.x, b.x);
             lemma_wn_bound(pt(coord), linestring.0@, k);
+            // wherever the body reports OnBoundary for this segment, the segment is the witness
+            assert(on_seg_k(pt(coord), linestring.0@, k) ==> on_ring_before(pt(coord), linestring.0@, linestring.0@.len() - 1));
             if cross(pt(a), pt(b), pt(coord)) == 0 && pt(coord).y == pt(a).y && pt(a).y != pt(b).y {
                 lemma_collinear_at_start_height(pt(a), pt(b), pt(coord));
             }
@@ -105,12 +91,9 @@ verus! {
                 }
             }
         }
-//@before 1 `return CoordPos::OnBoundary;`
-                    proof { assert(on_seg_k(pt(coord), linestring.0@, it.index@)); }
-//@before 2 `return CoordPos::OnBoundary;`
-                proof { assert(on_seg_k(pt(coord), linestring.0@, it.index@)); }
-//@before 1 `if winding_number == 0 {`
+//@loopexit 1
     proof {
+        T::ax_order();
         let s = linestring.0@;
         let n = s.len() as int;
         let p = pt(coord);
